@@ -378,6 +378,11 @@ def check(ctx: Ctx):
     check_enums(ctx)
     check_shipped(ctx)
     check_defaults_untouched(ctx)
+    # R19.5b: serialised state is stable through use (a saved configuration of a used object equals
+    # the one it was loaded from): configuration objects write their attributes only in __init__
+    from . import c15
+
+    c15.check_state_writers(ctx)
 
 
 _E = "panoptica/panoptica_evaluator.py"
